@@ -54,8 +54,9 @@ Next ==
          prev == Node(n)
          g2 == GhostStep(g, prev, r)
          v == Viol(CheckProps, g, prev, r, g2)
-         a == IF LevelB /\ ~drift /\ ~r.panic THEN Apply(st, r.call) ELSE [st |-> st, out |-> r.out, call |-> r.call]
-         dis == IF LevelB /\ ~drift /\ ~r.panic THEN Disagreement(a, r) ELSE {}
+         lb == LevelB /\ ~drift /\ ~r.panic /\ r.call.op # "probe"
+         a == IF lb THEN Apply(st, r.call) ELSE [st |-> st, out |-> r.out, call |-> r.call]
+         dis == IF lb THEN Disagreement(a, r) ELSE {}
      IN  /\ n' = k
          /\ g' = Resync(g2, r, v)
          /\ st' = a.st
